@@ -213,6 +213,21 @@ func beatScenario(name string, seed int64) Scenario {
 				w.Finish()
 				return
 			}
+			if proto == 4 && r.Intn(3) == 0 {
+				// a conformant upgrade right after opening (before the first ping): the heartbeat must go on on the new transport
+				cand := w.DialWS(s, "", nil, wsPonger(pol))
+				synctest.Wait()
+				cand.SendPkt(Pkt{Type: "ping", Data: []byte("probe")})
+				synctest.Wait()
+				cand.SendPkt(Pkt{Type: "upgrade"})
+				synctest.Wait()
+				for el := time.Duration(0); el < horizon; el += cfg.PI / 2 {
+					time.Sleep(cfg.PI / 2)
+					w.Snapshot()
+				}
+				w.Finish()
+				return
+			}
 			if proto == 3 {
 				pol.PingEvery = []time.Duration{cfg.PI, cfg.PI / 2, cfg.PI + cfg.PT - time.Microsecond, cfg.PI + cfg.PT, cfg.PI + cfg.PT + time.Microsecond, 0}[mode]
 				pol.MaxPings = failAt
